@@ -143,6 +143,44 @@ def load_known():
         return json.load(fh).get("findings", [])
 
 
+
+def import_rules(rep, fx, source_prop, as_rule, only_rules=None, floor=1, what=""):
+    """Re-evaluate another property's rules on the same facts and import their obligations under `as_rule` of this report
+    (a necessary clause shared between two properties is checked by one implementation). Fails closed."""
+    import importlib
+
+    mod = importlib.import_module(f"slx.rules.{source_prop.lower()}")
+    r = Report(source_prop, "quick", 0)
+    r.finish = lambda *a, **k: 0
+    try:
+        mod.check(fx, r, "quick")
+    except Exception as e:
+        rep.oblige(False, as_rule, f"shared-engine:{source_prop}", "-", f"the rules shared with {source_prop} crashed: {e}")
+        return 0
+    bad = {}
+    for v in r.violations:
+        if only_rules is None or v["rule"] in only_rules:
+            bad.setdefault(v["key"], v)
+    n = 0
+    seen = set()
+    for rule, keys in sorted(r.instances.items()):
+        if only_rules is not None and rule not in only_rules:
+            continue
+        for key in keys:
+            full = f"{rule}|{key}"
+            if full in seen:
+                continue
+            seen.add(full)
+            n += 1
+            v = bad.pop(full, None)
+            rep.oblige(v is None, as_rule, f"{rule}:{key}", v["where"] if v else "-", v["msg"] if v else "", sample={"rule": as_rule, "shared_with": f"{source_prop} {rule}", "instance": key} if n <= 2 else None)
+    # violations without an instance record (anchors, floors)
+    for full, v in bad.items():
+        rep.oblige(False, as_rule, full.replace("|", ":"), v["where"], v["msg"])
+    rep.floor(as_rule, n, floor, what or f"obligations shared with {source_prop}")
+    return n
+
+
 class Report:
     """Collects instances, violations and evidence for one property check."""
 
